@@ -160,7 +160,9 @@ where
                 .checked_add_signed(TimeDelta::minutes(1))
                 .expect("no valid datetime for time zone");
 
-            if let Some(dt) = self.tz.from_local_datetime(&naive).latest() {
+            // Take the earliest instant in the rare case where the first valid local time is
+            // also ambiguous (eg. Europe/Lisbon on 1992-09-27).
+            if let Some(dt) = self.tz.from_local_datetime(&naive).earliest() {
                 break dt;
             }
         };
@@ -171,7 +173,7 @@ where
         for _ in 0..59 {
             naive -= TimeDelta::seconds(1);
 
-            match self.tz.from_local_datetime(&naive).latest() {
+            match self.tz.from_local_datetime(&naive).earliest() {
                 Some(dt) => valid = dt,
                 None => break,
             }
